@@ -745,6 +745,20 @@ class Generator:
                     (f"not (self.{q} is not None) or (len({s}) >= {k} and len({s}) <= {k2})",
                      "U:guarded-and-of-len"),
                 ]
+        if prop.dom is not None and prop.optional:
+            # the guard form with more than two operands is *not* the recognised
+            # ``self.p is None or <constraint>`` form
+            options += [
+                (f"{s} is None or len({s}) <= {k2} or len({s}) == {k2 + 2}", "U:three-way-or-same-property"),
+                (f"{s} is None or len({s}) >= {k + 1} or len({s}) == 0", "U:three-way-or-same-property"),
+            ]
+        if prop.str_like and prop.optional:
+            q1, q2 = self.patterns[0][0], self.patterns[1][0]
+            t1, t2 = rng.sample(self.normal_str_sets(), 2)
+            options += [
+                (f"{s} is None or {q1}({s}) or {q2}({s})", "U:three-way-or-same-property"),
+                (f"{s} is None or {s} in {t1} or {s} in {t2}", "U:three-way-or-same-property"),
+            ]
         if prop.str_like:
             p1, p2 = self.patterns[0][0], self.patterns[1][0]
             s1, s2 = rng.sample(self.normal_str_sets(), 2)
